@@ -130,9 +130,37 @@ def strat_targets(tier):
             "limit": st.just(limit),
             "container": st.sampled_from(["set", "set", "list", "tuple",
                                           "frozenset", "reversed-list"]),
-            "dict": st.sampled_from(["dict", "ordered-reversed"])})
-    return st.sampled_from([256, 256, 256, 4, 8, 16, 16, 32, 64, 64,
-                            128]).flatmap(with_limit)
+            "dict": st.sampled_from(["dict", "ordered-reversed",
+                                     "defaultdict"])})
+    return st.one_of(
+        st.sampled_from([256, 256, 256, 4, 8, 16, 16, 32, 64, 64,
+                         128]).flatmap(with_limit),
+        st.sampled_from([256, 16, 8]).flatmap(neighbours))
+
+
+@st.composite
+def neighbours(draw, limit):
+    """A handful of chips in one 4x4 block (or two adjacent ones) that use
+    overlapping but unequal sets of a few cores: more (region, mask) pairs
+    come out of the tree than there are chips."""
+    bx = draw(st.integers(0, limit // 4 - 1)) * 4
+    by = draw(st.integers(0, limit // 4 - 1)) * 4
+    span = draw(st.sampled_from([4, 4, 8]))
+    pool = draw(st.sampled_from([[1, 2, 3], [0, 1, 2, 3], [1, 16, 17],
+                                 [1, 2, 3, 4, 5, 6]]))
+    pieces = []
+    for _ in range(draw(st.integers(2, 5))):
+        pieces.append({
+            "kind": "chip",
+            "x": min(limit - 1, bx + draw(st.integers(0, span - 1))),
+            "y": min(limit - 1, by + draw(st.integers(0, span - 1))),
+            "cores": sorted(draw(st.sets(st.sampled_from(pool), min_size=1,
+                                         max_size=3)))})
+    return {"pieces": pieces, "limit": limit,
+            "container": draw(st.sampled_from(["set", "list", "tuple",
+                                               "reversed-list"])),
+            "dict": draw(st.sampled_from(["dict", "ordered-reversed",
+                                          "defaultdict"]))}
 
 
 def build_targets(case):
@@ -172,9 +200,17 @@ def check_targets(case):
     items = sorted(targets.items())
     if case.get("dict") == "ordered-reversed":
         items = items[::-1]
+    given = dict((k, conv(v)) for k, v in items)
+    if case.get("dict") == "defaultdict":
+        # what build_application_map returns for an application
+        import collections
+        given = collections.defaultdict(set, given)
     with sut("compress_flood_fill_regions"):
-        out = list(regions.compress_flood_fill_regions(
-            dict((k, conv(v)) for k, v in items)))
+        out = list(regions.compress_flood_fill_regions(given))
+    require(set(given) == set(targets) and
+            all(set(given[k]) == set(targets[k]) for k in targets),
+            "compress_flood_fill_regions changed the targets it was given",
+            {"added": sorted(map(list, set(given) - set(targets)))[:8]})
     got = {}
     levels = set()
     for pair in out:
@@ -208,9 +244,11 @@ def check_targets(case):
                                                     for r, m in keys][:40]})
     masks = set(m for _, m in keys)
     partial = bool(levels - {3}) and (3 in levels or len(masks) > 1)
-    return {"nontrivial": partial,
+    crowded = len(keys) > len(targets)
+    return {"nontrivial": partial or crowded,
             "classes": ["level%d" % l for l in sorted(levels)] +
                        (["partial-collapse"] if partial else []) +
+                       (["more-pairs-than-chips"] if crowded else []) +
                        ["corner%d" % case.get("limit", 256)]}
 
 
